@@ -38,4 +38,4 @@ TIMEOUT_IS_VIOLATION = True
 
 
 def plan(tier):  # noqa: F811
-    return [("sys", 8000 if tier == "quick" else 150000), ("gen", 800 if tier == "quick" else 12000), ("aimD3", 16)]
+    return [("sys", 6000 if tier == "quick" else 150000), ("gen", 600 if tier == "quick" else 12000), ("aimD3", 16)]
